@@ -2014,7 +2014,7 @@ static int add_global (hawk_t* hawk, const hawk_oocs_t* name, hawk_loc_t* xloc, 
 
 	if (hawk_arr_insert(hawk->parse.gbls, HAWK_ARR_SIZE(hawk->parse.gbls), (hawk_ooch_t*)name->ptr, name->len) == HAWK_ARR_NIL)
 	{
-		ADJERR_LOC (hawk, xloc);
+		if (xloc) ADJERR_LOC (hawk, xloc);
 		return -1;
 	}
 
